@@ -246,8 +246,11 @@ TEXTS = {
                 "closest_clusters returns for the matrix of THAT moment, between two distinct live nodes, with the sizes added; the matrix "
                 "holds at every moment exactly the pairs of live nodes; the run ends after exactly n-1 merges with one live node. "
                 "C17_distances_follow_method: for single / complete / average the distance of every other live node to the new cluster is "
-                "min / max / mean of its distances to the two merged nodes and all other distances are kept. PARTIAL: for union linkage the "
-                "new distances (user distance on the union, in callback order) are executed, not proved; the replay additionally checks per merge that no live pair is closer, the reported distance, and the "
+                "min / max / mean of its distances to the two merged nodes and all other distances are kept; C17_union_distances: for union the "
+                "new cluster's set is the union of the two merged sets and the distance of every other live node to it is the user's distance "
+                "between that union and the node's set (set_to_last yields the new set paired with every live set, in order). Not a theorem: "
+                "that the initial matrix holds the user distance of every pair (executed; that each pair is asked once is "
+                "C17_initial_pairs_each_once). The replay additionally checks per merge that no live pair is closer, the reported distance, and the "
                 "method-specific update (min / max / mean / user distance on the union); the transcription is diffed bit for bit.",
         "design_ref": "DESIGN.md §4 C17, §9",
         "note": NOTE_COMMON + "Axioms: the four standard-library axioms behind Coq Reals (via Flocq's binary32 in the replay's distance type). HashMap order: on a tie the crate may merge another minimal pair than the model; such runs are decided by the replay only.",
